@@ -132,6 +132,7 @@ class Exporter:
         self.ids: dict[SSAValue, int] = {}
         self.ty: list[str] = []
         self.w: list[int] = []
+        self.msp: list[str] = []
         self.ops: list[dict] = []
         self.width_map = width_map or (lambda w: w)
         self.opmap: dict[Operation, int] = {}
@@ -142,6 +143,8 @@ class Exporter:
             tag, w = type_tag(v.type)
             self.ty.append(tag)
             self.w.append(self.width_map(w))
+            ms = getattr(v.type, "memory_space", None)
+            self.msp.append(ms.data if ms is not None and hasattr(ms, "data") and isinstance(ms.data, str) else "")
         return self.ids[v]
 
     def rec(self, op: Operation) -> dict:
@@ -288,7 +291,7 @@ class Exporter:
         name = fn.properties["sym_name"].data if "sym_name" in fn.properties else fn.name
         return {
             "name": name, "nv": max(len(self.ids), 1), "ops": self.ops, "args": args,
-            "ty": self.ty or ["o"], "w": self.w or [0],
+            "ty": self.ty or ["o"], "w": self.w or [0], "msp": self.msp or [""],
         }
 
 
@@ -307,7 +310,7 @@ def export_body(block, width_map=None) -> dict:
                     e.ops.append(e.rec(owner))
                     done.add(o)
     e.walk_block(block, 0)
-    return {"name": "body", "nv": max(len(e.ids), 1), "ops": e.ops, "args": args, "ty": e.ty or ["o"], "w": e.w or [0]}
+    return {"name": "body", "nv": max(len(e.ids), 1), "ops": e.ops, "args": args, "ty": e.ty or ["o"], "w": e.w or [0], "msp": e.msp or [""]}
 
 
 def export_func(fn, width_map=None) -> dict:
